@@ -1,12 +1,17 @@
-// C07: tracer (engine S, path enumeration over the pivot / eps tests) of the fixed-size dense solvers of /repo
-//   trace gen <out.v>   : complete decision trees as Coq definitions + Sym-vs-double agreement lines
+// C07: tracer (engine S, path enumeration over the pivot / eps / sign tests) of the dense solvers of /repo
+//   trace gen <out.v> <seed> : complete decision trees as Coq definitions + Sym-vs-double agreement lines
 #include "symtfel.hxx"
 #include "TFEL/Math/tvector.hxx"
 #include "TFEL/Math/tmatrix.hxx"
+#include "TFEL/Math/vector.hxx"
+#include "TFEL/Math/matrix.hxx"
 #include "TFEL/Math/TinyMatrixSolve.hxx"
 #include "TFEL/Math/TinyMatrixInvert.hxx"
+#include "TFEL/Math/QR/QRDecomp.hxx"
+#include <array>
 #include <cmath>
 #include <cstring>
+#include <functional>
 #include <iostream>
 #include <random>
 #include <stdexcept>
@@ -57,39 +62,150 @@ std::vector<T> run(int kind, const std::vector<T>& a, const std::vector<T>& rhs,
   return r;
 }
 
-static const char* kname[4] = {"solve", "solvem", "lu", "invert"};
+// TinyMatrixSolveBase<N>::back_substitute alone, on a given factorised matrix m and a permutation built by the swaps
+// LUDecomp performs (step i exchanges positions i and sw[i] >= i).  M = 0: tvector right-hand side, M = 2: tmatrix<N,2>
+template <unsigned short N, unsigned short M, typename T>
+std::vector<T> run_bs(const std::array<int, N>& sw, const std::vector<T>& a, const std::vector<T>& rhs, const T eps) {
+  tmatrix<N, N, T> m;
+  for (unsigned short i = 0; i < N; ++i)
+    for (unsigned short j = 0; j < N; ++j) m(i, j) = a[N * i + j];
+  tfel::math::TinyPermutation<N> p;
+  for (unsigned short i = 0; i + 1 < N; ++i)
+    if (sw[i] != i) p.swap(static_cast<unsigned short>(sw[i]), i);
+  using Base = tfel::math::TinyMatrixSolveBase<N, T, false, false>;
+  std::vector<T> r;
+  if constexpr (M == 0) {
+    tvector<N, T> b;
+    for (unsigned short i = 0; i < N; ++i) b(i) = rhs[i];
+    if (!Base::back_substitute(m, p, b, eps)) throw Failure();
+    for (unsigned short i = 0; i < N; ++i) r.push_back(b(i));
+  } else {
+    tmatrix<N, M, T> b;
+    for (unsigned short i = 0; i < N; ++i)
+      for (unsigned short k = 0; k < M; ++k) b(i, k) = rhs[M * i + k];
+    if (!Base::back_substitute(m, p, b, eps)) throw Failure();
+    for (unsigned short i = 0; i < N; ++i)
+      for (unsigned short k = 0; k < M; ++k) r.push_back(b(i, k));
+  }
+  return r;
+}
 
-template <unsigned short N>
-void gen(Trace& tr, int kind, std::mt19937_64& rng) {
-  auto a = vars("a", N * N);
-  const int nb = kind == 0 || kind == 2 ? N : (kind == 1 ? 2 * N : 0);
-  auto b = vars("b", nb);
-  auto eps = var("eps");
-  std::vector<Sym> all = a;
-  all.insert(all.end(), b.begin(), b.end());
-  all.push_back(eps);
-  const std::string name = std::string(kname[kind]) + std::to_string(N);
-  auto leaves = tr.def_paths(name, all, [&] { return run<N, Sym>(kind, a, b, eps); }, 200000);
+// QR: QRDecomp::exe, then tq_product and back_substitute: the solution of a x = b (throws QRNullPivot)
+template <typename T>
+std::vector<T> run_qr(const int n, const std::vector<T>& a, const std::vector<T>& rhs, const T eps) {
+  tfel::math::matrix<T> m(n, n);
+  tfel::math::vector<T> rdiag(n), beta(n), v(n);
+  for (int i = 0; i < n; ++i) {
+    v(i) = rhs[i];
+    for (int j = 0; j < n; ++j) m(i, j) = a[n * i + j];
+  }
+  tfel::math::QRDecomp::exe(m, rdiag, beta);
+  tfel::math::QRDecomp::tq_product(v, m, beta);
+  tfel::math::QRDecomp::back_substitute(v, m, rdiag, eps);
+  std::vector<T> r;
+  for (int i = 0; i < n; ++i) r.push_back(v(i));
+  return r;
+}
+struct QRx : tfel::math::QRDecomp {
+  using tfel::math::QRDecomp::householder_product;
+};
+// the Householder reflector number c of QRDecomp::exe(a): outputs H_c w, H_c u (two arbitrary vectors),
+// then for c = 0: H_0 (column 0 of a), rdiag(0), and for j >= 1 the pairs (first entry of H_0 (column j of a), a'(0, j));
+// last output: beta(c)
+template <typename T>
+std::vector<T> run_hh(const int n, const int c, const std::vector<T>& a, const std::vector<T>& wu) {
+  tfel::math::matrix<T> m(n, n);
+  tfel::math::vector<T> rdiag(n), beta(n), w(n), u(n);
+  for (int i = 0; i < n; ++i) {
+    w(i) = wu[i];
+    u(i) = wu[n + i];
+    for (int j = 0; j < n; ++j) m(i, j) = a[n * i + j];
+  }
+  tfel::math::QRDecomp::exe(m, rdiag, beta);
+  QRx::householder_product(w, m, beta, static_cast<decltype(m.getNbRows())>(c));
+  QRx::householder_product(u, m, beta, static_cast<decltype(m.getNbRows())>(c));
+  std::vector<T> r;
+  for (int i = 0; i < n; ++i) r.push_back(w(i));
+  for (int i = 0; i < n; ++i) r.push_back(u(i));
+  if (c == 0) {
+    for (int j = 0; j < n; ++j) {
+      tfel::math::vector<T> col(n);
+      for (int i = 0; i < n; ++i) col(i) = a[n * i + j];
+      QRx::householder_product(col, m, beta, static_cast<decltype(m.getNbRows())>(0));
+      if (j == 0) {
+        for (int i = 0; i < n; ++i) r.push_back(col(i));
+        r.push_back(rdiag(0));
+      } else {
+        r.push_back(col(0));
+        r.push_back(m(0, j));
+      }
+    }
+  }
+  r.push_back(beta(c));
+  return r;
+}
+
+static long double det_ld(int n, std::vector<long double> a) {
+  long double det = 1;
+  for (int i = 0; i < n; ++i) {
+    int piv = i;
+    for (int j = i + 1; j < n; ++j)
+      if (std::fabs(a[n * j + i]) > std::fabs(a[n * piv + i])) piv = j;
+    if (a[n * piv + i] == 0) return 0;
+    if (piv != i) {
+      for (int k = 0; k < n; ++k) std::swap(a[n * i + k], a[n * piv + k]);
+      det = -det;
+    }
+    det *= a[n * i + i];
+    for (int j = i + 1; j < n; ++j) {
+      const long double f = a[n * j + i] / a[n * i + i];
+      for (int k = i; k < n; ++k) a[n * j + k] -= f * a[n * i + k];
+    }
+  }
+  return det;
+}
+
+// smallest relative margin |x - y| / max(1, |x|, |y|) of the comparisons taken by the leaf selected by env: a decision taken
+// within rounding noise (e.g. the sign test of a reduced entry that is exactly 0) may go the other way in binary64
+static long double decision_margin(const std::vector<Leaf>& ls, const Env& env) {
+  for (auto& L : ls) {
+    bool ok = true;
+    long double margin = 1;
+    std::map<int, long double> memo;
+    for (auto& c : L.conds) {
+      const long double x = eval_node(c.a, env, memo, nullptr), y = eval_node(c.b, env, memo, nullptr);
+      const bool v = c.rel == LT ? x < y : (c.rel == LE ? x <= y : x == y);
+      if (v != c.value) {
+        ok = false;
+        break;
+      }
+      margin = std::min(margin, std::fabs(x - y) / std::max<long double>({1.0L, std::fabs(x), std::fabs(y)}));
+    }
+    if (ok) return margin;
+  }
+  return 0;
+}
+
+// decision tree of fs over the variables vs, then agreement with the double instantiation fd on seeded inputs (small
+// integers: ties and null pivots occur; reals).  The first nmat variables are the entries of an nn x nn matrix.
+// tol_singular: a verdict / value disagreement on an (almost) exactly singular matrix depends on rounding only.
+static void gen(Trace& tr, const std::string& name, const std::vector<Sym>& vs, const std::vector<std::string>& names,
+                const std::function<std::vector<Sym>()>& fs, const std::function<std::vector<double>(const std::vector<double>&)>& fd,
+                int nn, std::mt19937_64& rng, int ncases = 400, bool eps_last = true) {
+  auto leaves = tr.def_paths(name, vs, fs, 200000);
   std::printf("LEAVES %s %zu\n", name.c_str(), leaves.size());
-  // agreement with the double instantiation on seeded inputs (small integers: ties and null pivots occur)
   std::uniform_int_distribution<int> small(-3, 3);
   std::uniform_real_distribution<double> uni(-2, 2);
   int nfail = 0, nnone = 0, ntot = 0, nsing = 0;
-  for (int t = 0; t < 400; ++t) {
+  for (int t = 0; t < ncases; ++t) {
     Env env;
-    std::vector<double> da, db;
-    for (int k = 0; k < N * N; ++k) {
+    std::vector<double> d;
+    for (size_t k = 0; k < names.size(); ++k) {
       double v = t % 2 ? small(rng) : uni(rng);
-      env["a" + std::to_string(k)] = v;
-      da.push_back(v);
+      if (eps_last && k + 1 == names.size()) v = 0x1p-1000;
+      env[names[k]] = v;
+      d.push_back(v);
     }
-    for (int k = 0; k < nb; ++k) {
-      double v = t % 2 ? small(rng) : uni(rng);
-      env["b" + std::to_string(k)] = v;
-      db.push_back(v);
-    }
-    const double e = 0x1p-1000;
-    env["eps"] = e;
     std::vector<long double> r;
     std::string err;
     ++ntot;
@@ -99,64 +215,163 @@ void gen(Trace& tr, int kind, std::mt19937_64& rng) {
       continue;
     }
     bool dfail = false;
-    std::vector<double> d;
+    std::vector<double> dres;
     try {
-      d = run<N, double>(kind, da, db, e);
+      dres = fd(d);
     } catch (std::exception&) {
       dfail = true;
     }
     bool singular = false;
-    {
-      // exactly singular matrix whose elimination is not exact in binary64: the verdict of the double instantiation
-      // depends on rounding (tiny non-null pivot); not a disagreement of the translation
-      long double det = 1;
-      if (N == 1) det = da[0];
-      if (N == 2) det = (long double)da[0] * da[3] - (long double)da[1] * da[2];
-      if (N == 3)
-        det = (long double)da[0] * ((long double)da[4] * da[8] - (long double)da[5] * da[7]) -
-              (long double)da[1] * ((long double)da[3] * da[8] - (long double)da[5] * da[6]) +
-              (long double)da[2] * ((long double)da[3] * da[7] - (long double)da[4] * da[6]);
-      singular = std::fabs(det) < 1e-12L;
+    if (nn > 0) {
+      std::vector<long double> a(d.begin(), d.begin() + nn * nn);
+      singular = std::fabs(det_ld(nn, a)) < 1e-12L;
     }
     bool ok = dfail == !err.empty();
     if (dfail) ++nnone;
-
     if (ok && !dfail) {
-      ok = d.size() == r.size();
-      for (size_t k = 0; ok && k < d.size(); ++k) {
+      ok = dres.size() == r.size();
+      for (size_t k = 0; ok && k < dres.size(); ++k) {
         const long double sc = std::max<long double>(1, std::fabs(r[k]));
-        ok = std::fabs(d[k] - r[k]) <= 1e-7L * sc;  // ill-conditioned random systems lose digits in double
+        ok = std::fabs(dres[k] - r[k]) <= 1e-7L * sc;  // ill-conditioned random systems lose digits in double
       }
     }
-    if (!ok && singular) {
+    if (!ok && (singular || decision_margin(leaves, env) < 1e-9L)) {
       ++nsing;
       continue;
     }
     if (!ok) {
       ++nfail;
-      std::printf("AGREE-FAIL %s case %d a=", name.c_str(), t);
-      for (auto v : da) std::printf("%.17g,", v);
-      std::printf(" b=");
-      for (auto v : db) std::printf("%.17g,", v);
+      std::printf("AGREE-FAIL %s case %d in=", name.c_str(), t);
+      for (auto v : d) std::printf("%.17g,", v);
       std::printf("\n");
     }
   }
-  std::printf("AGREE %s cases=%d failures_reported=%d disagreements=%d singular_rounding_dependent=%d\n", name.c_str(), ntot, nnone, nfail, nsing);
+  std::printf("AGREE %s cases=%d failures_reported=%d disagreements=%d rounding_dependent=%d\n", name.c_str(), ntot, nnone, nfail, nsing);
+}
+
+static std::vector<std::string> names_of(const char* p, int n) {
+  std::vector<std::string> r;
+  for (int i = 0; i < n; ++i) r.push_back(std::string(p) + std::to_string(i));
+  return r;
+}
+static std::vector<std::string> cat(std::vector<std::string> a, const std::vector<std::string>& b) {
+  a.insert(a.end(), b.begin(), b.end());
+  return a;
+}
+static std::vector<Sym> symcat(std::vector<Sym> a, const std::vector<Sym>& b) {
+  a.insert(a.end(), b.begin(), b.end());
+  return a;
+}
+
+static const char* kname[4] = {"solve", "solvem", "lu", "invert"};
+
+template <unsigned short N>
+void gen_tiny(Trace& tr, int kind, std::mt19937_64& rng) {
+  auto a = vars("a", N * N);
+  const int nb = kind == 0 || kind == 2 ? N : (kind == 1 ? 2 * N : 0);
+  auto b = vars("b", nb);
+  auto eps = var("eps");
+  auto all = symcat(symcat(a, b), {eps});
+  auto names = cat(cat(names_of("a", N * N), names_of("b", nb)), {"eps"});
+  const std::string name = std::string(kname[kind]) + std::to_string(N);
+  gen(tr, name, all, names, [&] { return run<N, Sym>(kind, a, b, eps); },
+      [&](const std::vector<double>& d) {
+        std::vector<double> da(d.begin(), d.begin() + N * N), db(d.begin() + N * N, d.begin() + N * N + nb);
+        return run<N, double>(kind, da, db, d.back());
+      },
+      N, rng);
+}
+
+// every permutation LUDecomp can produce on N rows (swap sequences), named by its image p(0)p(1)...
+template <unsigned short N, unsigned short M>
+void gen_bs(Trace& tr, std::mt19937_64& rng) {
+  std::array<int, N> sw;
+  std::function<void(int)> rec = [&](int i) {
+    if (i + 1 >= N) {
+      std::array<int, N> p;
+      for (int k = 0; k < N; ++k) p[k] = k;
+      for (int k = 0; k + 1 < N; ++k) std::swap(p[k], p[sw[k]]);
+      std::string name = M == 0 ? "bsv" : "bsm";
+      name += std::to_string(N) + "_";
+      for (int k = 0; k < N; ++k) name += std::to_string(p[k]);
+      auto a = vars("a", N * N);
+      const int nb = M == 0 ? N : N * M;
+      auto b = vars("b", nb);
+      auto eps = var("eps");
+      auto all = symcat(symcat(a, b), {eps});
+      auto names = cat(cat(names_of("a", N * N), names_of("b", nb)), {"eps"});
+      const auto s = sw;
+      gen(tr, name, all, names, [&] { return run_bs<N, M, Sym>(s, a, b, eps); },
+          [&](const std::vector<double>& d) {
+            std::vector<double> da(d.begin(), d.begin() + N * N), db(d.begin() + N * N, d.begin() + N * N + nb);
+            return run_bs<N, M, double>(s, da, db, d.back());
+          },
+          0, rng, 100);
+      return;
+    }
+    for (int j = i; j < N; ++j) {
+      sw[i] = j;
+      rec(i + 1);
+    }
+  };
+  rec(0);
+}
+
+static void gen_qr(Trace& tr, int n, std::mt19937_64& rng) {
+  auto a = vars("a", n * n);
+  auto b = vars("b", n);
+  auto eps = var("eps");
+  auto all = symcat(symcat(a, b), {eps});
+  auto names = cat(cat(names_of("a", n * n), names_of("b", n)), {"eps"});
+  gen(tr, "qrsolve" + std::to_string(n), all, names, [&] { return run_qr<Sym>(n, a, b, eps); },
+      [&](const std::vector<double>& d) {
+        std::vector<double> da(d.begin(), d.begin() + n * n), db(d.begin() + n * n, d.begin() + n * n + n);
+        return run_qr<double>(n, da, db, d.back());
+      },
+      n, rng);
+}
+static void gen_hh(Trace& tr, int n, int c, std::mt19937_64& rng) {
+  auto a = vars("a", n * n);
+  auto w = vars("w", n);
+  auto u = vars("u", n);
+  auto all = symcat(symcat(a, w), u);
+  auto names = cat(cat(names_of("a", n * n), names_of("w", n)), names_of("u", n));
+  gen(tr, "qrh" + std::to_string(n) + "_" + std::to_string(c), all, names, [&] { return run_hh<Sym>(n, c, a, symcat(w, u)); },
+      [&](const std::vector<double>& d) {
+        std::vector<double> da(d.begin(), d.begin() + n * n), dw(d.begin() + n * n, d.end());
+        return run_hh<double>(n, c, da, dw);
+      },
+      n, rng, 400, false);
 }
 
 int main(int argc, char** argv) {
   if (argc >= 3 && !std::strcmp(argv[1], "gen")) {
     Trace tr("C07_gen");
+    std::string base = argv[2];  // <dir>/C07_gen.v -> <dir>/C07_gen{,bs,qr}.v
+    if (base.size() > 2 && base.substr(base.size() - 2) == ".v") base.resize(base.size() - 2);
     std::mt19937_64 rng(argc >= 4 ? std::strtoull(argv[3], nullptr, 10) : 1);
-    for (int kind = 0; kind < 2; ++kind) {
-      gen<1>(tr, kind, rng);
-      gen<2>(tr, kind, rng);
-      gen<3>(tr, kind, rng);
+    for (int kind = 0; kind < 4; ++kind) {
+      gen_tiny<1>(tr, kind, rng);
+      gen_tiny<2>(tr, kind, rng);
+      gen_tiny<3>(tr, kind, rng);
     }
-    gen<1>(tr, 2, rng);
-    gen<2>(tr, 2, rng);
-    gen<3>(tr, 2, rng);
     tr.write(argv[2]);
+    // back substitution alone, N = 4, every permutation, matrix (two columns) and vector right-hand sides
+    Trace tb("C07_genbs");
+    gen_bs<4, 2>(tb, rng);
+    gen_bs<4, 0>(tb, rng);
+    tb.write(base + "bs.v");
+    // QR
+    Trace tq("C07_genqr");
+    gen_qr(tq, 1, rng);
+    gen_qr(tq, 2, rng);
+    gen_qr(tq, 3, rng);
+    gen_hh(tq, 2, 0, rng);
+    gen_hh(tq, 2, 1, rng);
+    gen_hh(tq, 3, 0, rng);
+    gen_hh(tq, 3, 1, rng);
+    gen_hh(tq, 3, 2, rng);
+    tq.write(base + "qr.v");
     return 0;
   }
   return 2;
